@@ -222,17 +222,69 @@ package vm
 // every clause below is what the five frame constructors are proved to establish, one level down.
 // ---------------------------------------------------------------------------------------------------------------
 
-// the interpreter of this EVM is in read-only (static) mode
+// the interpreter of this EVM, and: it is in read-only (static) mode
+//@ spec func c16Interp(evm: *EVM) *EVMInterpreter = unbox(evm.interpreter, *EVMInterpreter)
 //@ spec func c16InStatic(evm: *EVM) bool = unbox(evm.interpreter, *EVMInterpreter).readOnly
 
-//@ func run props C16
-//@ nobody
-//@ requires contract != nil
-//@ modifies c16Sigma, c16Snap, c16Next, contract.Gas, contract.Input, all(EVMInterpreter.returnData)
-//@ ensures [gas-monotone]    contract.Gas <= old(contract.Gas)
+// Well-formed EVM, as NewEVM builds it ([evm-ok] there): exactly one interpreter, the built-in one, it is the current one,
+// it points back to this EVM and its configuration holds a well-formed jump table.
+//@ spec func c16InterpOK(i: Interpreter, evm: *EVM) bool =
+//@     hastype(i, *EVMInterpreter) && unbox(i, *EVMInterpreter) != nil && unbox(i, *EVMInterpreter).evm == evm &&
+//@     unbox(i, *EVMInterpreter).cfg != nil && c16TableOK(unbox(i, *EVMInterpreter).cfg.JumpTable)
+//@ spec func c16EvmOK(evm: *EVM) bool =
+//@     evm != nil && evm.vmConfig != nil && len(evm.interpreters) == 1 && evm.interpreter == evm.interpreters[0] && c16InterpOK(evm.interpreter, evm)
+
+// Interface method Interpreter.Run: TRUSTED to satisfy what its only implementation (*EVMInterpreter).Run is PROVED to
+// establish — [static], [write-protection-restored], [depth-restored], [value], [outer-snapshots] — plus two ASSUMED parts:
+// [gas-monotone] (not decided, see props) and the heap frame (Run's own contract is `modifies all`; that a frame writes no
+// pre-existing object other than those listed is not verified). readOnly and depth ARE listed as written: that they are
+// restored is a proved clause, not a frame assumption.
+//@ func (Interpreter).Run props C16
+//@ trusted
+//@ let in = unbox(recv, *EVMInterpreter)
+//@ requires [interp-ok] hastype(recv, *EVMInterpreter) && in != nil && in.evm != nil && in.cfg != nil && contract != nil && c16TableOK(in.cfg.JumpTable)
+//@ requires [depth-limit] 0 <= in.evm.depth && in.evm.depth <= params.CallCreateDepth
+//@ modifies c16Sigma, c16Snap, c16Next, contract.Gas, contract.Input, all(EVMInterpreter.returnData), in.readOnly, in.evm.depth
+//@ ensures [static]          static || old(in.readOnly) ==> c16Sigma == old(c16Sigma)
+//@ ensures [write-protection-restored] in.readOnly == old(in.readOnly)
+//@ ensures [depth-restored]  in.evm.depth == old(in.evm.depth)
+//@ ensures [value]           c16Total(c16Sigma) <= c16Total(old(c16Sigma))
 //@ ensures [outer-snapshots] c16Next >= old(c16Next) && (forall i: int :: { c16Snap[i] } i < old(c16Next) ==> c16Snap[i] == old(c16Snap[i]))
+//@ ensures [gas-monotone]    contract.Gas <= old(contract.Gas)
+
+//@ func (Interpreter).CanRun props C16
+//@ trusted
+//@ pure
+
+// precompiled contracts: functions of their input (not decided further)
+//@ func (PrecompiledContract).RequiredGas props C16
+//@ trusted
+//@ pure
+
+//@ func (PrecompiledContract).Run props C16
+//@ trusted
+//@ pure
+
+//@ func RunPrecompiledContract props C16
+//@ requires contract != nil
+//@ modifies contract.Gas
+//@ ensures [gas-monotone] contract.Gas <= old(contract.Gas)
+
+// run is VERIFIED against the interface contract above (deferred restore of evm.interpreter modelled).
+//@ func run props C16
+//@ opt model-defers
+//@ requires [evm-ok] c16EvmOK(evm) && contract != nil
+//@ requires [depth-limit] 0 <= evm.depth && evm.depth <= params.CallCreateDepth
+//@ modifies c16Sigma, c16Snap, c16Next, contract.Gas, contract.Input, all(EVMInterpreter.returnData), all(EVMInterpreter.readOnly), evm.depth
+//@ loop #1 invariant [nothing-yet] c16Sigma == old(c16Sigma) && c16Snap == old(c16Snap) && c16Next == old(c16Next) && contract.Gas == old(contract.Gas) &&
+//@                       c16EvmOK(evm) && evm.depth == old(evm.depth) && c16InStatic(evm) == old(c16InStatic(evm)) && rangeindex >= -1
+//@ ensures [gas-monotone]    contract.Gas <= old(contract.Gas)
+//@ ensures [outer-snapshots] c16Next >= old(c16Next) && (forall i: int :: i < old(c16Next) ==> c16Snap[i] == old(c16Snap[i]))
 //@ ensures [value]           c16Total(c16Sigma) <= c16Total(old(c16Sigma))
 //@ ensures [static]          readOnly || old(c16InStatic(evm)) ==> c16Sigma == old(c16Sigma)
+//@ ensures [write-protection-restored] c16InStatic(evm) == old(c16InStatic(evm))
+//@ ensures [depth-restored]  evm.depth == old(evm.depth)
+//@ ensures [evm-ok]          c16EvmOK(evm)
 
 // ---------------------------------------------------------------------------------------------------------------
 // The frame constructors. Clauses, from the property statement:
@@ -242,12 +294,14 @@ package vm
 //   [value]           the total of all balances does not grow (it shrinks only by self-destruct burns inside run)
 //   [static]          beneath a static call (interpreter in read-only mode) nothing changes
 //   [outer-snapshots] the frame neither alters nor invalidates a snapshot of an enclosing frame (needed for nesting)
-// The frame `modifies …` is checked: no Go object that existed before the call is written, except returnData.
+//   [wiring-restored] the write-protection flag and the call depth are back to their entry values when the frame returns
+// The frame `modifies …` is checked: no Go object that existed before the call is written, except returnData, readOnly, depth.
 // ---------------------------------------------------------------------------------------------------------------
 
 //@ func (*EVM).Call props C16
-//@ requires evm != nil && evm.vmConfig != nil
-//@ modifies c16Sigma, c16Snap, c16Next, all(EVMInterpreter.returnData)
+//@ requires [evm-ok] c16EvmOK(evm) && 0 <= evm.depth
+//@ modifies c16Sigma, c16Snap, c16Next, all(EVMInterpreter.returnData), all(EVMInterpreter.readOnly), evm.depth
+//@ ensures [wiring-restored] c16InStatic(evm) == old(c16InStatic(evm)) && evm.depth == old(evm.depth) && c16EvmOK(evm)
 //@ ensures [no-trace]        err != nil ==> c16Sigma == old(c16Sigma)
 //@ ensures [gas-returned]    leftOverGas <= gas
 //@ ensures [gas-burnt]       err != nil && err != errExecutionReverted && err != ErrDepth && err != ErrInsufficientBalance ==> leftOverGas == 0
@@ -262,8 +316,9 @@ package vm
 //@ ensures [outer-snapshots] c16Next >= old(c16Next) && (forall i: int :: i < old(c16Next) ==> c16Snap[i] == old(c16Snap[i]))
 
 //@ func (*EVM).CallCode props C16
-//@ requires evm != nil && evm.vmConfig != nil
-//@ modifies c16Sigma, c16Snap, c16Next, all(EVMInterpreter.returnData)
+//@ requires [evm-ok] c16EvmOK(evm) && 0 <= evm.depth
+//@ modifies c16Sigma, c16Snap, c16Next, all(EVMInterpreter.returnData), all(EVMInterpreter.readOnly), evm.depth
+//@ ensures [wiring-restored] c16InStatic(evm) == old(c16InStatic(evm)) && evm.depth == old(evm.depth) && c16EvmOK(evm)
 //@ ensures [no-trace]        err != nil ==> c16Sigma == old(c16Sigma)
 //@ ensures [gas-returned]    leftOverGas <= gas
 //@ ensures [gas-burnt]       err != nil && err != errExecutionReverted && err != ErrDepth && err != ErrInsufficientBalance ==> leftOverGas == 0
@@ -272,8 +327,9 @@ package vm
 //@ ensures [outer-snapshots] c16Next >= old(c16Next) && (forall i: int :: i < old(c16Next) ==> c16Snap[i] == old(c16Snap[i]))
 
 //@ func (*EVM).DelegateCall props C16
-//@ requires evm != nil && evm.vmConfig != nil
-//@ modifies c16Sigma, c16Snap, c16Next, all(EVMInterpreter.returnData)
+//@ requires [evm-ok] c16EvmOK(evm) && 0 <= evm.depth
+//@ modifies c16Sigma, c16Snap, c16Next, all(EVMInterpreter.returnData), all(EVMInterpreter.readOnly), evm.depth
+//@ ensures [wiring-restored] c16InStatic(evm) == old(c16InStatic(evm)) && evm.depth == old(evm.depth) && c16EvmOK(evm)
 //@ ensures [no-trace]        err != nil ==> c16Sigma == old(c16Sigma)
 //@ ensures [gas-returned]    leftOverGas <= gas
 //@ ensures [gas-burnt]       err != nil && err != errExecutionReverted && err != ErrDepth ==> leftOverGas == 0
@@ -282,8 +338,9 @@ package vm
 //@ ensures [outer-snapshots] c16Next >= old(c16Next) && (forall i: int :: i < old(c16Next) ==> c16Snap[i] == old(c16Snap[i]))
 
 //@ func (*EVM).StaticCall props C16
-//@ requires evm != nil && evm.vmConfig != nil
-//@ modifies c16Sigma, c16Snap, c16Next, all(EVMInterpreter.returnData)
+//@ requires [evm-ok] c16EvmOK(evm) && 0 <= evm.depth
+//@ modifies c16Sigma, c16Snap, c16Next, all(EVMInterpreter.returnData), all(EVMInterpreter.readOnly), evm.depth
+//@ ensures [wiring-restored] c16InStatic(evm) == old(c16InStatic(evm)) && evm.depth == old(evm.depth) && c16EvmOK(evm)
 //@ ensures [static-no-change] c16Sigma == old(c16Sigma)
 //@ ensures [gas-returned]    leftOverGas <= gas
 //@ ensures [gas-burnt]       err != nil && err != errExecutionReverted && err != ErrDepth ==> leftOverGas == 0
@@ -293,9 +350,10 @@ package vm
 // statement lists), so a failed create leaves either the entry state (depth / balance failure) or exactly the entry
 // state with nonce(caller)+1. Which of the two cannot be told from the error value alone (run may return any error).
 //@ func (*EVM).create props C16
-//@ requires evm != nil && evm.vmConfig != nil
+//@ requires [evm-ok] c16EvmOK(evm) && 0 <= evm.depth
 //@ let who = c16AddrOf(caller)
-//@ modifies c16Sigma, c16Snap, c16Next, all(EVMInterpreter.returnData)
+//@ modifies c16Sigma, c16Snap, c16Next, all(EVMInterpreter.returnData), all(EVMInterpreter.readOnly), evm.depth
+//@ ensures [wiring-restored] c16InStatic(evm) == old(c16InStatic(evm)) && evm.depth == old(evm.depth) && c16EvmOK(evm)
 //@ ensures [no-trace]        result3 != nil ==> c16Sigma == old(c16Sigma) ||
 //@                               c16Sigma == c16SetNonce(old(c16Sigma), who, wrap64(c16Nonce(old(c16Sigma), who) + 1))
 //@ ensures [gas-returned]    result2 <= gas
@@ -304,9 +362,10 @@ package vm
 //@ ensures [outer-snapshots] c16Next >= old(c16Next) && (forall i: int :: i < old(c16Next) ==> c16Snap[i] == old(c16Snap[i]))
 
 //@ func (*EVM).Create props C16
-//@ requires evm != nil && evm.vmConfig != nil
+//@ requires [evm-ok] c16EvmOK(evm) && 0 <= evm.depth
 //@ let who = c16AddrOf(caller)
-//@ modifies c16Sigma, c16Snap, c16Next, all(EVMInterpreter.returnData)
+//@ modifies c16Sigma, c16Snap, c16Next, all(EVMInterpreter.returnData), all(EVMInterpreter.readOnly), evm.depth
+//@ ensures [wiring-restored] c16InStatic(evm) == old(c16InStatic(evm)) && evm.depth == old(evm.depth) && c16EvmOK(evm)
 //@ ensures [no-trace]        err != nil ==> c16Sigma == old(c16Sigma) ||
 //@                               c16Sigma == c16SetNonce(old(c16Sigma), who, wrap64(c16Nonce(old(c16Sigma), who) + 1))
 //@ ensures [gas-returned]    leftOverGas <= gas
@@ -314,9 +373,10 @@ package vm
 //@ ensures [outer-snapshots] c16Next >= old(c16Next) && (forall i: int :: i < old(c16Next) ==> c16Snap[i] == old(c16Snap[i]))
 
 //@ func (*EVM).Create2 props C16
-//@ requires evm != nil && evm.vmConfig != nil
+//@ requires [evm-ok] c16EvmOK(evm) && 0 <= evm.depth
 //@ let who = c16AddrOf(caller)
-//@ modifies c16Sigma, c16Snap, c16Next, all(EVMInterpreter.returnData)
+//@ modifies c16Sigma, c16Snap, c16Next, all(EVMInterpreter.returnData), all(EVMInterpreter.readOnly), evm.depth
+//@ ensures [wiring-restored] c16InStatic(evm) == old(c16InStatic(evm)) && evm.depth == old(evm.depth) && c16EvmOK(evm)
 //@ ensures [no-trace]        err != nil ==> c16Sigma == old(c16Sigma) ||
 //@                               c16Sigma == c16SetNonce(old(c16Sigma), who, wrap64(c16Nonce(old(c16Sigma), who) + 1))
 //@ ensures [gas-returned]    leftOverGas <= gas
@@ -458,7 +518,7 @@ package vm
 //@ trusted
 //@ modifies all, c16Sigma, c16Snap, c16Next
 //@ ensures [wiring-kept] interpreter.readOnly == old(interpreter.readOnly) && interpreter.cfg == old(interpreter.cfg) && interpreter.evm == old(interpreter.evm) &&
-//@                       interpreter.cfg.JumpTable == old(interpreter.cfg.JumpTable) && contract.Gas <= 2^64 - 1
+//@                       interpreter.cfg.JumpTable == old(interpreter.cfg.JumpTable) && interpreter.evm.depth == old(interpreter.evm.depth)
 //@ ensures [static] old(interpreter.readOnly) && c16ROSafe(callee) && (callee == opCall ==> old(big(stack.data[len(stack.data) - 3])) == 0) ==> c16Sigma == old(c16Sigma)
 //@ ensures [value]  c16Total(c16Sigma) <= c16Total(old(c16Sigma))
 //@ ensures [outer-snapshots] c16Next >= old(c16Next) && (forall i: int :: { c16Snap[i] } i < old(c16Next) ==> c16Snap[i] == old(c16Snap[i]))
@@ -476,18 +536,28 @@ package vm
 //@ modifies all(intPoolPool.pools)
 //@ ensures result != nil
 
+// put (called from Run's deferred closure): appends the pool to the global pool list
+//@ func (*intPoolPool).put props C16
+//@ nobody
+//@ modifies all(intPoolPool.pools), elems(ipp.pools)
+
 // Run. [write-gate] is the property's static-call clause at the point where it matters: immediately before the opcode
 // function is called. The loop invariant carries "in read-only mode the state is still the entry state".
 //@ func (*EVMInterpreter).Run props C16
+//@ opt model-defers
 //@ requires in != nil && in.evm != nil && in.cfg != nil && contract != nil
 //@ requires [table] c16TableOK(in.cfg.JumpTable)
 //@ modifies all, c16Sigma, c16Snap, c16Next
+//@ requires [depth-limit] 0 <= in.evm.depth && in.evm.depth <= params.CallCreateDepth
 //@ loop #1 invariant [wiring] in.readOnly == (readOnly || old(in.readOnly)) && in.cfg == old(in.cfg) && in.evm == old(in.evm) && in.cfg.JumpTable == old(in.cfg.JumpTable)
+//@ loop #1 invariant [depth]  in.evm.depth == old(in.evm.depth) + 1
 //@ loop #1 invariant [static] in.readOnly ==> c16Sigma == old(c16Sigma)
 //@ loop #1 invariant [value]  c16Total(c16Sigma) <= c16Total(old(c16Sigma))
 //@ loop #1 invariant [outer-snapshots] c16Next >= old(c16Next) && (forall i: int :: i < old(c16Next) ==> c16Snap[i] == old(c16Snap[i]))
 //@ assert before call executionFunc: [write-gate] in.readOnly ==> !operation.writes && !(op == CALL && big(stack.data[len(stack.data) - 3]) != 0)
 //@ ensures [static] readOnly || old(in.readOnly) ==> c16Sigma == old(c16Sigma)
+//@ ensures [write-protection-restored] in.readOnly == old(in.readOnly)      // the deferred reset clears the flag only in the frame that set it
+//@ ensures [depth-restored]  in.evm.depth == old(in.evm.depth)
 //@ ensures [value]  c16Total(c16Sigma) <= c16Total(old(c16Sigma))
 //@ ensures [outer-snapshots] c16Next >= old(c16Next) && (forall i: int :: i < old(c16Next) ==> c16Snap[i] == old(c16Snap[i]))
 
@@ -769,12 +839,12 @@ package vm
 // The call family: not flagged `writes`; in read-only mode they change nothing because the frame constructors pass the
 // mode down ([static] of Call & co.). Gas plumbing: what comes back is added to what was left after the dynamic gas step
 // deducted evm.callGasTemp; it never exceeds the gas passed (callGasTemp, plus the 2300 stipend for a value transfer).
-// [wired]/[apart] are structure invariants established elsewhere (NewEVM/run; C15) and are preconditions here.
+// [evm-ok] (NewEVM) and [apart] (C15) are structure invariants and are preconditions here.
 // ---------------------------------------------------------------------------------------------------------------
 
 //@ func opCall props C16
-//@ requires interpreter != nil && interpreter.evm != nil && interpreter.evm.vmConfig != nil && contract != nil && stack != nil
-//@ requires [wired] unbox(interpreter.evm.interpreter, *EVMInterpreter) == interpreter     // set by NewEVM / run
+//@ requires interpreter != nil && contract != nil && stack != nil
+//@ requires [evm-ok] c16EvmOK(interpreter.evm) && c16Interp(interpreter.evm) == interpreter && 0 <= interpreter.evm.depth
 //@ requires [apart] interpreter.intPool != nil && interpreter.intPool.pool != nil && interpreter.intPool.pool != stack &&
 //@                  base(interpreter.intPool.pool.data) != base(stack.data)                  // C15's ownership invariant (c15Apart)
 //@ modifies all, c16Sigma, c16Snap, c16Next
@@ -783,53 +853,53 @@ package vm
 //@ ensures [outer-snapshots] c16Next >= old(c16Next) && (forall i: int :: i < old(c16Next) ==> c16Snap[i] == old(c16Snap[i]))
 //@ ensures [gas-plumbing] old(contract.Gas + interpreter.evm.callGasTemp) + params.CallStipend < 2^64 ==>
 //@                            contract.Gas <= old(contract.Gas + interpreter.evm.callGasTemp) + params.CallStipend
-//@ ensures [wiring-kept] interpreter.readOnly == old(interpreter.readOnly) && interpreter.cfg == old(interpreter.cfg) && interpreter.evm == old(interpreter.evm)
+//@ ensures [wiring-kept] interpreter.readOnly == old(interpreter.readOnly) && interpreter.cfg == old(interpreter.cfg) && interpreter.evm == old(interpreter.evm) && interpreter.evm.depth == old(interpreter.evm.depth)
 
 //@ func opCallCode props C16
-//@ requires interpreter != nil && interpreter.evm != nil && interpreter.evm.vmConfig != nil && contract != nil && stack != nil
-//@ requires [wired] unbox(interpreter.evm.interpreter, *EVMInterpreter) == interpreter     // set by NewEVM / run
+//@ requires interpreter != nil && contract != nil && stack != nil
+//@ requires [evm-ok] c16EvmOK(interpreter.evm) && c16Interp(interpreter.evm) == interpreter && 0 <= interpreter.evm.depth
 //@ modifies all, c16Sigma, c16Snap, c16Next
 //@ ensures [static] old(interpreter.readOnly) ==> c16Sigma == old(c16Sigma)
 //@ ensures [value]  c16Total(c16Sigma) <= c16Total(old(c16Sigma))
 //@ ensures [outer-snapshots] c16Next >= old(c16Next) && (forall i: int :: i < old(c16Next) ==> c16Snap[i] == old(c16Snap[i]))
 //@ ensures [gas-plumbing] old(contract.Gas + interpreter.evm.callGasTemp) + params.CallStipend < 2^64 ==>
 //@                            contract.Gas <= old(contract.Gas + interpreter.evm.callGasTemp) + params.CallStipend
-//@ ensures [wiring-kept] interpreter.readOnly == old(interpreter.readOnly) && interpreter.cfg == old(interpreter.cfg) && interpreter.evm == old(interpreter.evm)
+//@ ensures [wiring-kept] interpreter.readOnly == old(interpreter.readOnly) && interpreter.cfg == old(interpreter.cfg) && interpreter.evm == old(interpreter.evm) && interpreter.evm.depth == old(interpreter.evm.depth)
 
 //@ func opDelegateCall props C16
-//@ requires interpreter != nil && interpreter.evm != nil && interpreter.evm.vmConfig != nil && contract != nil && stack != nil
-//@ requires [wired] unbox(interpreter.evm.interpreter, *EVMInterpreter) == interpreter     // set by NewEVM / run
+//@ requires interpreter != nil && contract != nil && stack != nil
+//@ requires [evm-ok] c16EvmOK(interpreter.evm) && c16Interp(interpreter.evm) == interpreter && 0 <= interpreter.evm.depth
 //@ modifies all, c16Sigma, c16Snap, c16Next
 //@ ensures [static] old(interpreter.readOnly) ==> c16Sigma == old(c16Sigma)
 //@ ensures [value]  c16Total(c16Sigma) <= c16Total(old(c16Sigma))
 //@ ensures [outer-snapshots] c16Next >= old(c16Next) && (forall i: int :: i < old(c16Next) ==> c16Snap[i] == old(c16Snap[i]))
 //@ ensures [gas-plumbing] old(contract.Gas + interpreter.evm.callGasTemp) < 2^64 ==> contract.Gas <= old(contract.Gas + interpreter.evm.callGasTemp)
-//@ ensures [wiring-kept] interpreter.readOnly == old(interpreter.readOnly) && interpreter.cfg == old(interpreter.cfg) && interpreter.evm == old(interpreter.evm)
+//@ ensures [wiring-kept] interpreter.readOnly == old(interpreter.readOnly) && interpreter.cfg == old(interpreter.cfg) && interpreter.evm == old(interpreter.evm) && interpreter.evm.depth == old(interpreter.evm.depth)
 
 //@ func opStaticCall props C16
-//@ requires interpreter != nil && interpreter.evm != nil && interpreter.evm.vmConfig != nil && contract != nil && stack != nil
-//@ requires [wired] unbox(interpreter.evm.interpreter, *EVMInterpreter) == interpreter     // set by NewEVM / run
+//@ requires interpreter != nil && contract != nil && stack != nil
+//@ requires [evm-ok] c16EvmOK(interpreter.evm) && c16Interp(interpreter.evm) == interpreter && 0 <= interpreter.evm.depth
 //@ modifies all, c16Sigma, c16Snap, c16Next
 //@ ensures [static-no-change] c16Sigma == old(c16Sigma)
 //@ ensures [outer-snapshots] c16Next >= old(c16Next) && (forall i: int :: i < old(c16Next) ==> c16Snap[i] == old(c16Snap[i]))
 //@ ensures [gas-plumbing] old(contract.Gas + interpreter.evm.callGasTemp) < 2^64 ==> contract.Gas <= old(contract.Gas + interpreter.evm.callGasTemp)
-//@ ensures [wiring-kept] interpreter.readOnly == old(interpreter.readOnly) && interpreter.cfg == old(interpreter.cfg) && interpreter.evm == old(interpreter.evm)
+//@ ensures [wiring-kept] interpreter.readOnly == old(interpreter.readOnly) && interpreter.cfg == old(interpreter.cfg) && interpreter.evm == old(interpreter.evm) && interpreter.evm.depth == old(interpreter.evm.depth)
 
 // ---------------------------------------------------------------------------------------------------------------
 // The writers (flagged `writes` in the jump table: unreachable in read-only mode by [write-gate])
 // ---------------------------------------------------------------------------------------------------------------
 
 //@ func opCreate props C16
-//@ requires interpreter != nil && interpreter.evm != nil && interpreter.evm.vmConfig != nil && contract != nil && stack != nil
-//@ requires [wired] unbox(interpreter.evm.interpreter, *EVMInterpreter) == interpreter     // set by NewEVM / run
+//@ requires interpreter != nil && contract != nil && stack != nil
+//@ requires [evm-ok] c16EvmOK(interpreter.evm) && c16Interp(interpreter.evm) == interpreter && 0 <= interpreter.evm.depth
 //@ modifies all, c16Sigma, c16Snap, c16Next
 //@ ensures [value]  c16Total(c16Sigma) <= c16Total(old(c16Sigma))
 //@ ensures [outer-snapshots] c16Next >= old(c16Next) && (forall i: int :: i < old(c16Next) ==> c16Snap[i] == old(c16Snap[i]))
 //@ ensures [gas-plumbing] contract.Gas <= old(contract.Gas)
 
 //@ func opCreate2 props C16
-//@ requires interpreter != nil && interpreter.evm != nil && interpreter.evm.vmConfig != nil && contract != nil && stack != nil
-//@ requires [wired] unbox(interpreter.evm.interpreter, *EVMInterpreter) == interpreter     // set by NewEVM / run
+//@ requires interpreter != nil && contract != nil && stack != nil
+//@ requires [evm-ok] c16EvmOK(interpreter.evm) && c16Interp(interpreter.evm) == interpreter && 0 <= interpreter.evm.depth
 //@ modifies all, c16Sigma, c16Snap, c16Next
 //@ ensures [value]  c16Total(c16Sigma) <= c16Total(old(c16Sigma))
 //@ ensures [outer-snapshots] c16Next >= old(c16Next) && (forall i: int :: i < old(c16Next) ==> c16Snap[i] == old(c16Snap[i]))
@@ -1025,3 +1095,10 @@ package vm
 //@ assume [pkg-init] c16TableOK(istanbulInstructionSet)
 //@ modifies nothing
 //@ ensures [table-ok] c16TableOK(result)
+
+// NewEVM builds a well-formed EVM (precondition [evm-ok] of the frame constructors) from a configuration with a
+// well-formed jump table (core.CombineVMConfig [table-ok]): depth 0, not in static mode.
+//@ func NewEVM props C16
+//@ requires vmConfig != nil && c16TableOK(vmConfig.JumpTable)
+//@ modifies nothing
+//@ ensures [evm-ok] c16EvmOK(result) && result.depth == 0 && !c16InStatic(result) && result.StateDB == statedb
